@@ -440,7 +440,7 @@ func (r *rewriter) rewriteGo(g *ast.GoStmt) string {
 		return r.text(g.Pos(), g.End())
 	}
 	call := g.Call
-	name := strconv.Quote("go@" + r.where(g))
+	name := strconv.Quote("go:" + r.goName(g))
 	if fl, ok := unparen(call.Fun).(*ast.FuncLit); ok && len(call.Args) == 0 {
 		return fmt.Sprintf("simrt.GoAt(%s, %s)", name, r.render(fl))
 	}
@@ -724,4 +724,22 @@ func coreKind(t types.Type) string {
 		return "mixed"
 	}
 	return "other"
+}
+
+// goName names a spawned task after the function it runs (stable under line shifts).
+func (r *rewriter) goName(g *ast.GoStmt) string {
+	switch f := unparen(g.Call.Fun).(type) {
+	case *ast.Ident:
+		return f.Name
+	case *ast.SelectorExpr:
+		return f.Sel.Name
+	}
+	// function literal: name of the enclosing function declaration
+	encl := "?"
+	for _, d := range r.file.Decls {
+		if fd, ok := d.(*ast.FuncDecl); ok && fd.Pos() <= g.Pos() && g.End() <= fd.End() {
+			encl = fd.Name.Name
+		}
+	}
+	return "func@" + encl
 }
